@@ -161,7 +161,9 @@ contract(E + "ExonCorrector.process_events#none", _PE_ARGS, returns="tuple[tuple
              # --splice_correction_strategy none: all six switches off (set_splice_correction_options, checked by C14.strategy_none)
              "not self.params.correct_fuzzy_junctions and not self.params.correct_intron_shifts and not self.params.correct_skipped_exons",
              "not self.params.correct_terminal_exons and not self.params.correct_fake_terminal_exons and not self.params.correct_microintron_retention",
-             "all(k >= 0 for k in event_map)"],
+             "all(k >= 0 for k in event_map)",
+             # shape invariant of the input: the read's introns are junctions between its exons, strictly inside the read region
+             "all(read_region[0] < read_introns[j][0] and read_introns[j][1] < read_region[1] for j in range(len(read_introns)))"],
          # the corrected alignment equals the input alignment
          ensures=["result[0] == read_region", "result[1] == read_introns"],
          loops={0: {"inv": ["True"]},
@@ -199,7 +201,10 @@ contract(E + "ExonCorrector.process_events#provenance", _PE_ARGS, returns="tuple
              "result[0][0] == read_region[0] or self.params.correct_fake_terminal_exons or self.params.correct_terminal_exons",
              "result[0][1] == read_region[1] or self.params.correct_fake_terminal_exons or self.params.correct_terminal_exons",
              "result[0][0] == read_region[0] or result[0][0] == isoform_region[0] or any(result[0][0] == read_introns[j][1] + 1 for j in range(len(read_introns)))",
-             "result[0][1] == read_region[1] or result[0][1] == isoform_region[1] or any(result[0][1] == read_introns[j][0] - 1 for j in range(len(read_introns)))"],
+             "result[0][1] == read_region[1] or result[0][1] == isoform_region[1] or any(result[0][1] == read_introns[j][0] - 1 for j in range(len(read_introns)))",
+             # every intron of the corrected alignment lies strictly inside the corrected read region (no block of non-positive size at
+             # the ends; this part of the former residual is proved since the repair of process_events)
+             "all(result[0][0] < result[1][k][0] and result[1][k][1] < result[0][1] for k in range(len(result[1])))"],
          loops={0: {"inv": ["len(corrected_introns) == _k0", "len(potential_introns) == len(read_introns)",
                             "all((corrected_introns[j][0] == read_introns[j][0] or corrected_introns[j][0] == potential_introns[j][0]) and "
                             "(corrected_introns[j][1] == read_introns[j][1] or corrected_introns[j][1] == potential_introns[j][1]) for j in range(_k0))"],
@@ -382,10 +387,41 @@ def _e2e_case(seed):
     strategy = rng.choice(["none", "default_pacbio", "conservative_ont", "default_ont", "all", "assembly"])
     params = H.make_params(strategy)
     isoforms = H.make_gene(rng)
-    gi = H.gene_info_of(isoforms, params.delta)
-    tid, strand, exons = rng.choice(isoforms)
-    kind = rng.choice(H.READ_KINDS)
-    read = H.derive_read(rng, exons, kind, params.delta)
+    if rng.random() < .2:
+        # an isoform with an annotated micro-intron (5-40 bp), and reads aligned straight through it - as an inner block, or as a short
+        # first / last block that the assigner calls a fake terminal exon
+        tid, strand, exons = isoforms[0]
+        cand = [i for i in range(len(exons)) if exons[i][1] - exons[i][0] >= 200]
+        if not cand:
+            return None, []
+        i = rng.choice(cand)
+        a, b = exons[i]
+        g = rng.randint(5, 40)
+        m = a + rng.randint(60, b - a - g - 100)
+        exons = exons[:i] + [(a, m - 1), (m + g, b)] + exons[i + 1:]
+        isoforms = [(tid, strand, exons)] + isoforms[1:]
+        kind = rng.choice(["micro_inner", "micro_fake_first", "micro_fake_last"])
+        left, right = rng.randint(5, 15), rng.randint(5, 15)
+        if kind == "micro_inner":
+            read = exons[:i] + [(a, b)] + exons[i + 2:]
+        elif kind == "micro_fake_first":
+            cut = m + g + right + rng.randint(70, 90)
+            if cut + 20 > b:
+                return None, []
+            read = [(m - left, m + g + right - 1), (cut, b)] + exons[i + 2:]
+        else:
+            cut = m - left - rng.randint(70, 90)
+            if cut - 20 < a:
+                return None, []
+            read = exons[:i] + [(a, cut), (m - left, m + g + right - 1)]
+        if len(read) < 2:
+            return None, []
+        gi = H.gene_info_of(isoforms, params.delta)
+    else:
+        gi = H.gene_info_of(isoforms, params.delta)
+        tid, strand, exons = rng.choice(isoforms)
+        kind = rng.choice(H.READ_KINDS)
+        read = H.derive_read(rng, exons, kind, params.delta)
     if read is None:
         return None, []
     ra, info = H.assign(gi, params, read)
@@ -424,7 +460,7 @@ def replay_e2e(d):
 
 @bounded("C14.corrected_end_to_end", ["C14"], shards=8, note="reads derived from annotated isoforms by 11 kinds of perturbation (truncation, jitter, "
          "terminal exons misplaced into the neighbouring intron on either or both sides, skipped exon, fake terminal micro-exon, retention, "
-         "intron shift, novel exon) go through the real AlignmentInfo -> profiles -> LongReadAssigner -> ExonCorrector under all six "
+         "intron shift, novel exon; plus reads running through an annotated micro-intron as an inner or as a short terminal block) go through the real AlignmentInfo -> profiles -> LongReadAssigner -> ExonCorrector under all six "
          "strategies: corrected blocks must be positive, ascending, non-overlapping; strategy none must leave the alignment unchanged; "
          "every corrected splice site is the read's own or annotated. This is the bounded stand-in for the assumed contract of "
          "correct_misalignments")
@@ -448,3 +484,49 @@ def c14_e2e(tier, rng):
                 "required": "valid corrected alignment", "replay_call": "contracts.c_correction:replay_e2e"}]}
     return {"cases": done, "bound": "%d derived reads x 6 strategies (sampled)" % n, "violations": [], "nontrivial": len(kinds),
             "samples": [{"seed": base, "kinds": kinds}]}
+
+
+# ---- which events reach process_events: the micro-intron switch guards the negative keys -----------------------------------------------------
+def _event_map_extract(fdef):
+    """correct_misalignments: the construction of event_map from the matched isoform's events, returning the map; the events are taken as a
+    parameter (`events` = read_assignment.isoform_matches[0].match_subclassifications); the profile look-ups and the call of process_events
+    that follow are dropped"""
+    import copy
+    init = next((n for n in fdef.body if isinstance(n, ast.Assign) and ast.unparse(n.targets[0]) == "event_map"), None)
+    loop = next((n for n in fdef.body if isinstance(n, ast.For) and "match_subclassifications" in ast.unparse(n.iter)), None)
+    if init is None or loop is None:
+        raise front.Missing("event_map construction not found in correct_misalignments")
+    loop = copy.deepcopy(loop)
+    loop.iter = ast.Name(id="events", ctx=ast.Load())
+    args = ast.arguments(posonlyargs=[], args=[ast.arg(arg=a) for a in ("self", "events")], kwonlyargs=[], kw_defaults=[], defaults=[])
+    return ast.fix_missing_locations(ast.FunctionDef(name="correct_misalignments", args=args,
+                                                     body=[copy.deepcopy(init), loop, ast.Return(value=ast.Name(id="event_map", ctx=ast.Load()))],
+                                                     decorator_list=[], lineno=fdef.lineno, col_offset=0))
+
+
+def _gen_event_lists(rng, n):
+    ia = native.repo_import("src/isoform_assignment.py")
+    K = ia.SupplementaryMatchConstants
+    names = ["fake_micro_intron_retention", "intron_shift", "fake_terminal_exon_left", "exon_skipping_known", "fsm", "intron_retention"]
+    for _ in range(n):
+        evs = []
+        for _e in range(rng.randint(0, 4)):
+            t = rng.choice(names)
+            rr = rng.choice([K.undefined_region, (K.absent_position, rng.randint(0, 3)), (rng.randint(0, 3),) * 2])
+            evs.append({"__rec__": "MatchEventR", "event_type": ("enum", "MatchEventSubtype", t), "isoform_region": (0, 0), "read_region": tuple(rr), "event_info": 0})
+        flags = {f: rng.random() < .5 for f in ("correct_fuzzy_junctions", "correct_intron_shifts", "correct_skipped_exons", "correct_terminal_exons",
+                                                 "correct_fake_terminal_exons", "correct_microintron_retention")}
+        yield {"self": {"__rec__": "ExonCorrector", "params": dict({"__rec__": "CorrParams", "delta": 6}, **flags), "delta": 6, "chr_record": None},
+               "events": evs}
+
+
+contract(E + "ExonCorrector.correct_misalignments#event_map", {"self": "rec:ExonCorrector", "events": "list[rec:MatchEventR]"},
+         returns=EVMAP, props=["C14"], extract=_event_map_extract, native=False, locals={"event_map": EVMAP},
+         # a retained micro-intron (negative key) is handed to process_events only when its correction is switched on: this is the
+         # precondition `all(k >= 0 for k in event_map)` of process_events under --splice_correction_strategy none
+         ensures=["self.params.correct_microintron_retention or all(k >= 0 for k in result)",
+                  "all(any(result[k] == events[j] for j in range(len(events))) for k in result)"],
+         loops={0: {"inv": ["self.params.correct_microintron_retention or all(k >= 0 for k in event_map)",
+                            "all(any(event_map[k] == events[j] for j in range(_k0)) for k in event_map)"]}},
+         requires=["all(events[j].read_region[0] >= 0 and events[j].read_region[1] >= 0 for j in range(len(events)))"],
+         gen=lambda rng, n: _gen_event_lists(rng, n), canary="len(result) == 0")
